@@ -24,6 +24,7 @@ import (
 	"encoding/json"
 	"errors"
 	"fmt"
+	"net/url"
 	"strings"
 
 	"github.com/Comcast/rulio/core"
@@ -157,23 +158,30 @@ func (c *CroltSimple) Rem(ctx *core.Context, id string) (bool, error) {
 		return false, errors.New("no location in ctx")
 	}
 
-	url := strings.Trim(c.CroltURL, "/rem")
-	url += "?account=" + ctx.Location().Name
-	url += "&id=" + id
-	ctx.Log(core.INFO, "Cron.Rem", "url", url)
+	if err := c.rem(ctx, ctx.Location().Name, id); err != nil {
+		return false, err
+	}
 
-	req := core.NewHTTPRequest(ctx, "GET", url, "")
+	return true, nil
+}
+
+func (c *CroltSimple) rem(ctx *core.Context, account string, id string) error {
+	u := strings.TrimRight(c.CroltURL, "/") + "/rem"
+	u += "?account=" + url.QueryEscape(account)
+	u += "&id=" + url.QueryEscape(id)
+	ctx.Log(core.INFO, "Cron.Rem", "url", u)
+
+	req := core.NewHTTPRequest(ctx, "GET", u, "")
 
 	resp, err := req.Do(ctx)
 	if nil != err {
 		core.Log(core.WARN|CRON, ctx, "CroltSimple.Rem", "id", id, "error", err)
-		return false, err
+		return err
 	}
 
-	core.Log(core.WARN|CRON, ctx, "CroltSimple.Rem", "id", id, "status", resp.Status)
-	// ToDo: Something useful with resp.Status.
+	core.Log(core.INFO|CRON, ctx, "CroltSimple.Rem", "id", id, "status", resp.Status)
 
-	return true, nil
+	return nil
 }
 
 func (c *CroltSimple) Persistent() bool {
